@@ -48,6 +48,15 @@ class OtherToken:
         return "<other>"
 
 
+class Tok:
+    """a symbolic element: a tensor (requiring grad or not) or a non-tensor"""
+    def __init__(self, name, is_tensor=False, requires_grad=False):
+        self.name, self.is_tensor, self.requires_grad = name, is_tensor, requires_grad
+
+    def __repr__(self):
+        return self.name
+
+
 class AIter:
     """a stateful iterator over a list (for `it = iter(xs); a = next(it); b = next(it)`)"""
     def __init__(self, items):
@@ -102,6 +111,10 @@ class DictInterp:
             return tuple(out_) if isinstance(e, ast.Tuple) else out_
         if isinstance(e, ast.Attribute) and ast.unparse(e) in self.env:
             return self.env[ast.unparse(e)]
+        if isinstance(e, ast.Attribute) and e.attr == "requires_grad":
+            v_ = self.ev(e.value)
+            if isinstance(v_, Tok):
+                return v_.requires_grad
         if isinstance(e, ast.BinOp) and isinstance(e.op, (ast.Add, ast.Sub)) and not (isinstance(e.left, ast.Constant) and isinstance(e.left.value, str)):
             l_, r_ = self.ev(e.left), self.ev(e.right)
             if isinstance(l_, (list, tuple)) and isinstance(r_, (list, tuple)) and isinstance(e.op, ast.Add):
@@ -173,8 +186,28 @@ class DictInterp:
             types = [ast.unparse(t) for t in (c.args[1].elts if isinstance(c.args[1], ast.Tuple) else [c.args[1]])]
             if all(t in ("str", "bytes") for t in types):
                 return isinstance(v, str) and "str" in types
+            if all(t in ("torch.Tensor", "Tensor") for t in types):
+                return isinstance(v, Tok) and v.is_tensor
             raise Unsupported("isinstance(.., %s)" % types)
         args = [self.ev(a) for a in c.args if not isinstance(a, ast.Starred)]
+        if fn == "range" and args and all(isinstance(a, int) for a in args):
+            return list(range(*args))
+        if fn == "enumerate" and len(args) == 1 and isinstance(args[0], (list, tuple)):
+            return [(i_, x_) for i_, x_ in enumerate(args[0])]
+        if fn == "zip" and args and all(isinstance(a, (list, tuple)) for a in args):
+            return [tuple(t_) for t_ in zip(*args)]
+        if isinstance(c.func, ast.Attribute) and c.func.attr in ("append", "extend", "insert") and not isinstance(c.func.value, ast.Constant):
+            recv_ = self.ev(c.func.value)
+            if isinstance(recv_, list):
+                if c.func.attr == "append" and len(args) == 1:
+                    recv_.append(args[0])
+                    return None
+                if c.func.attr == "extend" and len(args) == 1 and isinstance(args[0], (list, tuple)):
+                    recv_.extend(args[0])
+                    return None
+                if c.func.attr == "insert" and len(args) == 2 and isinstance(args[0], int):
+                    recv_.insert(args[0], args[1])
+                    return None
         kws = {k.arg: self.ev(k.value) for k in c.keywords if k.arg}
         star = [self.ev(k.value) for k in c.keywords if k.arg is None]
         if fn in ("copy.copy", "copy.deepcopy", "copy", "deepcopy") and len(args) == 1 and isinstance(args[0], ADict):
@@ -295,8 +328,10 @@ class DictInterp:
         v = self.ev(e)
         if isinstance(v, ADict):
             return bool(v.data)
-        if isinstance(v, (CallableToken, OtherToken)):
+        if isinstance(v, (CallableToken, OtherToken, Tok)):
             return True
+        if isinstance(v, (list, tuple)):
+            return len(v) > 0
         if isinstance(v, str) and v.startswith("$"):
             raise Unsupported("truth value of a symbolic option value")
         return bool(v)
@@ -321,6 +356,11 @@ class DictInterp:
             self.env[ast.unparse(t)] = v
         elif isinstance(t, ast.Subscript):
             d, k = self.ev(t.value), self.ev(t.slice)
+            if isinstance(d, list) and isinstance(k, int):
+                if not -len(d) <= k < len(d):
+                    raise Raised("IndexError")
+                d[k] = v
+                return
             if not isinstance(d, ADict):
                 raise Unsupported("store into a non-dict")
             d.mutated = True
